@@ -6,7 +6,9 @@ Model: `Model/Emulator.lean` (`regValue`, `memValue`, `evalRegs`, `evalMem`, `ev
 `state.State` with the memories of C14–C16; the `StateProvider` is an arbitrary oracle `p : Provider`
 (no consistency is assumed of its answers) and every call is logged (`Req`).  The model follows the
 REPAIRED code (F03: `ConstFold` before the type assertions of `memValue`; F70: a register is requested
-at the greatest width the code uses it with).
+at the greatest width the code uses it with; F45: an access that does not fit the address space makes `Step`
+return an error — the provider calls made before the failing access belong to the log, and the claims of C04
+hold for them too).
 
 Vocabulary (`Lemmas/EmulatorBasic.lean`, `EmulatorFill.lean`, `EmulatorRun.lean`):
 * `Inv s`   the memories satisfy the invariants of C14/C15, registers and memories hold constants;
@@ -19,7 +21,8 @@ Vocabulary (`Lemmas/EmulatorBasic.lean`, `EmulatorFill.lean`, `EmulatorRun.lean`
 * `Fill p s l s'` `s'` results from `s` by the requests `l` in order, each `Unknown` at its moment.
 * `Applied s efs s'` `s'` results from `s` by the writes of the evaluated effects.
 * `StepDom`/`RunDom` every memory access performed lies in the domain of C14 (`1 ≤ w ≤ 255`,
-            `addr + w < 2^64`); `CodeWF` every expression of the code has widths between 1 and 255.
+            `addr + w < 2^64`); `CodeWF` every expression of the code has widths between 1 and 255; `CodeSW`
+            every store of the code has a width between 1 and 255 (both are theorems for the code of an image).
 -/
 namespace Mltwist.Props.C04
 open Mltwist Mltwist.State Mltwist.Overlay Mltwist.Emulator Mltwist.Spec.Overlay
@@ -35,11 +38,28 @@ theorem tool_start_ready (pre : List (String × List UInt8)) {image bs : List By
 
 /-! ### one step -/
 
-/-- A step from a ready state returns the error exactly when no instruction starts at the instruction
-pointer; otherwise it succeeds: the provider calls `log` of the step are a `Fill` (each call is for
-state unknown at its moment, and its answer is stored), all of them precede the program's writes
-(`Applied`), and the resulting state is ready again. -/
+/-- WHATEVER THE INSTRUCTION ACCESSES (REPAIR F45: no domain hypothesis): a step from a ready state returns the
+error exactly when no instruction starts at the instruction pointer; otherwise it succeeds — the provider calls
+`log` of the step are a `Fill` (each call is for state unknown at its moment, and its answer is stored), all of
+them precede the program's writes (`Applied`), and the resulting state is ready again — or it returns the access
+error (some access has `addr + w ≥ 2^64`): then, too, the provider calls `log` made before the failing access are
+a `Fill`, nothing else changed the state, and it is ready again.  Never a panic. -/
 theorem step_shape (p : Provider) (code : CodeView) {s : State} (hr : Ready s) (hw : CodeWF code)
+    (hs : CodeSW code) :
+    ∃ c, assocGet ipKey s.regs = some (.const c) ∧
+      match code.lookup (leToNat c % 2 ^ 64) with
+      | none => step p code s = .err
+      | some ins =>
+        (∃ s1 s2 log rep,
+          step p code s = .ok (finish ins (ins.effects.any isJump) s2) rep log ∧
+          Fill p s log s1 ∧ Applied s1 (ins.effects.map (evalEff s1)) s2 ∧
+          Ready (finish ins (ins.effects.any isJump) s2)) ∨
+        (∃ s1 log a w, step p code s = .accessErr s1 log a w ∧ Fill p s log s1 ∧ Ready s1 ∧
+          assocGet ipKey s1.regs = some (.const c) ∧ 2 ^ 64 ≤ a + w ∧ ¬ StepDom p code s ins) :=
+  step_ready_total p code hr hw hs
+
+/-- … and inside the domain of C14 there is no access error (the statement before the repair of F45) -/
+theorem step_shape_in_domain (p : Provider) (code : CodeView) {s : State} (hr : Ready s) (hw : CodeWF code)
     (hd : ∀ c ins, assocGet ipKey s.regs = some (.const c) → code.lookup (leToNat c % 2 ^ 64) = some ins →
       StepDom p code s ins) :
     ∃ c, assocGet ipKey s.regs = some (.const c) ∧
@@ -96,29 +116,39 @@ theorem regValue_requests (p : Provider) (code : CodeView) (c : Ctx) (key : Stri
 
 /-! ### whole runs -/
 
-/-- For every provider, every well-formed code, every ready state and every number of steps (whose memory
-accesses lie in the domain of C14): the run never panics and ends in a ready state; over the WHOLE
-provider log no register is requested twice and no byte is requested twice; every request was for state
-unknown when the run began — and, since this holds for the run from any intermediate state as well and
-knowledge only grows, unknown at every moment before it was issued; everything requested is known at
+/-- For every provider, every well-formed code, every ready state and every number of steps — WHATEVER MEMORY THE
+PROGRAM ACCESSES (REPAIR F45: no domain hypothesis; a run ends with the first error, and the provider calls of a
+last step that fails with the access error belong to the log): the run never panics and ends in a ready state;
+over the WHOLE provider log no register is requested twice and no byte is requested twice; every request was
+for state unknown when the run began — and, since this holds for the run from any intermediate state as well
+and knowledge only grows, unknown at every moment before it was issued; everything requested is known at
 the end of the run. -/
-theorem run_requests (p : Provider) (code : CodeView) (hw : CodeWF code) (n : Nat) (s : State) (hr : Ready s)
-    (hd : RunDom p code n s) :
+theorem run_requests (p : Provider) (code : CodeView) (hw : CodeWF code) (hs : CodeSW code) (n : Nat) (s : State)
+    (hr : Ready s) :
+    Ready (run p code n s).2 ∧
+    (∀ o ∈ (run p code n s).1, match o with | .panic _ => False | _ => True) ∧
+    (logOf (run p code n s).1).Pairwise Req.Disjoint ∧
+    (∀ r ∈ logOf (run p code n s).1, Unknown s r ∧ KnownReq (run p code n s).2 r) :=
+  run_total p code hw hs n s hr
+
+/-- … and for the code the tool runs on — the lifting of the code blocks of an image by the RV64IMA front
+end — well-formedness is a theorem, not a hypothesis: no hypothesis on the program is left -/
+theorem run_requests_of_image (p : Provider) {blocks : List (Nat × List UInt8)} {code : CodeView}
+    (hc : liftCode blocks = some code) (n : Nat) (s : State) (hr : Ready s) :
+    Ready (run p code n s).2 ∧
+    (∀ o ∈ (run p code n s).1, match o with | .panic _ => False | _ => True) ∧
+    (logOf (run p code n s).1).Pairwise Req.Disjoint ∧
+    (∀ r ∈ logOf (run p code n s).1, Unknown s r ∧ KnownReq (run p code n s).2 r) :=
+  run_total p code (codeWF_of_liftCode hc) (codeSW_of_liftCode hc) n s hr
+
+/-- the same inside the domain of C14 (the statement before the repair of F45; needs no `CodeSW`) -/
+theorem run_requests_in_domain (p : Provider) (code : CodeView) (hw : CodeWF code) (n : Nat) (s : State)
+    (hr : Ready s) (hd : RunDom p code n s) :
     Ready (run p code n s).2 ∧
     (∀ o ∈ (run p code n s).1, match o with | .panic _ => False | _ => True) ∧
     (logOf (run p code n s).1).Pairwise Req.Disjoint ∧
     (∀ r ∈ logOf (run p code n s).1, Unknown s r ∧ KnownReq (run p code n s).2 r) :=
   run_log p code hw n s hr hd
-
-/-- … and for the code the tool runs on — the lifting of the code blocks of an image by the RV64IMA front
-end — well-formedness is a theorem, not a hypothesis -/
-theorem run_requests_of_image (p : Provider) {blocks : List (Nat × List UInt8)} {code : CodeView}
-    (hc : liftCode blocks = some code) (n : Nat) (s : State) (hr : Ready s) (hd : RunDom p code n s) :
-    Ready (run p code n s).2 ∧
-    (∀ o ∈ (run p code n s).1, match o with | .panic _ => False | _ => True) ∧
-    (logOf (run p code n s).1).Pairwise Req.Disjoint ∧
-    (∀ r ∈ logOf (run p code n s).1, Unknown s r ∧ KnownReq (run p code n s).2 r) :=
-  run_log p code (codeWF_of_liftCode hc) n s hr hd
 
 /-! ### later reads observe the supplied value until the program overwrites it -/
 
@@ -177,5 +207,23 @@ example :
        some ([], [("a", [1, 1, 1, 1, 1, 1, 1, 1]), ("c", [10, 10, 3, 3, 1, 1, 1, 1])], []),
        some ([], [], [⟨"m", 16, [9, 10, 10, 2]⟩]),
        none] := by decide
+
+/-- REPAIR F45, non-vacuity: the second instruction stores 2 bytes at `2^64 - 1` (the end wraps); its value register
+`c` and nothing else is asked before the check of the stores fails; the run ends with the access error, its
+request is in the log of the run, and the state keeps `a`, `c` and the instruction pointer 4 -/
+def exCodeTop : CodeView :=
+  [⟨0, 4, [.regStore (.regLoad "a" 8) "d" 8]⟩,
+   ⟨4, 4, [.regStore (.regLoad "a" 8) "e" 8,
+           .memStore (.regLoad "c" 8) "m" (.const [0xff, 0xff, 0xff, 0xff, 0xff, 0xff, 0xff, 0xff]) 2]⟩]
+
+set_option synthInstance.maxSize 2048 in
+example :
+    (logOf (run exProv exCodeTop 3 exState).1,
+     (run exProv exCodeTop 3 exState).1.map (fun o => match o with
+      | .ok _ _ log => some (log, none)
+      | .accessErr s log a w => some (log, some (a, w, s.regs.map (·.1)))
+      | _ => none))
+    = ([.reg "a" 8, .reg "c" 8],
+       [some ([.reg "a" 8], none), some ([.reg "c" 8], some (2 ^ 64 - 1, 2, [ipKey, "a", "d", "c"]))]) := by decide
 
 end Mltwist.Props.C04
